@@ -4449,7 +4449,10 @@ class Parser:
 
     def _parse_hint(self) -> exp.Hint | None:
         if self._match(TokenType.HINT) and self._prev_comments:
-            return exp.maybe_parse(self._prev_comments[0], into=exp.Hint, dialect=self.dialect)
+            hint = self._prev_comments[0]
+            # An empty hint comment (/*+ */) holds no hints
+            if hint.strip():
+                return exp.maybe_parse(hint, into=exp.Hint, dialect=self.dialect)
 
         return None
 
